@@ -47,7 +47,7 @@ func (o *Obligation) Query(models bool) string {
 		sb.WriteString("(assert " + ax + ")\n")
 	}
 	sb.WriteString(arithPrelude)
-	if fv.usesBSeq() {
+	if fv.usesBSeq() || strings.Contains(o.Cond.S, "BSeq") || strings.Contains(o.Cond.S, "(slen ") || strings.Contains(o.Cond.S, "(snoc ") {
 		sb.WriteString(bseqPrelude)
 	}
 	for _, d := range fv.decls {
